@@ -1,5 +1,78 @@
-(* Properties_C01.v -- placeholder: theorems land with EngineProofs. *)
-From LCDB Require Import Engine.
+(* Properties_C01.v -- theorems for property C01 (a lookup returns the most recent write).
+   Statements only; the proofs are in EngineTop.v (built on EngineRead.v, EngineSteps.v).
+   [written 0 ops] lists the entries of the OWrite operations of [ops] in write order with
+   the sequence numbers lcdb assigns; [map_after] replays a list of entries as a sequential
+   map (put = bind, delete = unbind, keys compared with the user comparator). *)
+From LCDB Require Import Base Engine EngineSpec EngineRead EngineSteps EngineTop.
+From Coq Require Import Sorting.Sorted.
+Local Open Scope N_scope.
+
 Theorem C01_init_empty : forall ucmp k q, get ucmp init_state k q = NotHere.
 Proof. intros. reflexivity. Qed.
 Print Assumptions C01_init_empty.
+
+(* after any sequence of puts, deletes, batches, memtable switches, flushes, compactions,
+   trivial moves, snapshots, releases and reopens, a lookup at the latest sequence returns
+   the value of the most recent write to that key, or not-found *)
+Theorem C01_get_latest : forall ucmp, total_order ucmp -> forall ops s,
+  run ucmp init_state ops = Some s ->
+  forall k, visible (get ucmp s k (last_seq s)) = map_after ucmp (written 0 ops) k.
+Proof. exact get_latest. Qed.
+Print Assumptions C01_get_latest.
+
+Theorem C01_get_at_any_state : forall ucmp, total_order ucmp -> forall ops s,
+  run ucmp init_state ops = Some s ->
+  forall k, visible (get ucmp s k (last_seq s)) = spec_get ucmp s k (last_seq s).
+Proof. exact get_at_any_state. Qed.
+Print Assumptions C01_get_at_any_state.
+
+(* at any readable sequence q (a live snapshot or the latest): the writes up to q *)
+Theorem C01_get_at_seq : forall ucmp, total_order ucmp -> forall ops s,
+  run ucmp init_state ops = Some s ->
+  forall k q, readable s q ->
+  visible (get ucmp s k q) = map_after ucmp (filter (fun e => es e <=? q) (written 0 ops)) k.
+Proof. exact get_at_seq. Qed.
+Print Assumptions C01_get_at_seq.
+
+(* the ghost history of the model is the write history, newest first *)
+Theorem C01_history_is_write_history : forall ucmp ops s,
+  run ucmp init_state ops = Some s ->
+  hist s = rev (written 0 ops) /\ last_seq s = total_writes ops.
+Proof. exact run_hist_init. Qed.
+Print Assumptions C01_history_is_write_history.
+
+Theorem C01_run_hist : forall ucmp ops s s',
+  run ucmp s ops = Some s' ->
+  hist s' = rev (written (last_seq s) ops) ++ hist s /\
+  last_seq s' = last_seq s + total_writes ops.
+Proof. exact run_hist. Qed.
+Print Assumptions C01_run_hist.
+
+(* sequence numbers are assigned in strictly increasing order, above the starting one *)
+Theorem C01_written_increasing : forall ops seq,
+  ForallOrdPairs (fun x y => es x < es y) (written seq ops) /\
+  forall e, In e (written seq ops) -> seq < es e <= seq + total_writes ops.
+Proof. intros ops seq. split. exact (written_incr ops seq). exact (written_range ops seq). Qed.
+Print Assumptions C01_written_increasing.
+
+(* reading a history with increasing sequences, newest = most recent write *)
+Theorem C01_newest_is_last_write : forall ucmp l k q,
+  ForallOrdPairs (fun x y => es x < es y) l -> (forall e, In e l -> es e <= q) ->
+  visible (result_of (best ucmp (rev l) k q)) = map_after ucmp l k.
+Proof. exact best_rev_map_after. Qed.
+Print Assumptions C01_newest_is_last_write.
+
+Theorem C01_spec_is_last_write : forall ucmp ops s k q,
+  run ucmp init_state ops = Some s -> last_seq s <= q ->
+  spec_get ucmp s k q = map_after ucmp (written 0 ops) k.
+Proof. exact spec_is_last_write. Qed.
+Print Assumptions C01_spec_is_last_write.
+
+(* non-vacuity: the concrete run of EngineTop.Example (writes, snapshots, flush to level 2
+   and level 0, compaction with a tombstone, releases, reopen) *)
+Theorem C01_example : forall k,
+  run bytes_compare init_state Example.all_ops = Some Example.s3 /\
+  visible (get bytes_compare Example.s3 k 7)
+  = map_after bytes_compare (written 0 Example.all_ops) k.
+Proof. intros k. split. exact Example.run_all. exact (Example.c01_instance k). Qed.
+Print Assumptions C01_example.
